@@ -1,14 +1,19 @@
 import Driver.C11
+import Driver.C16
 /-!
 Model/oracle driver.  `bsdriver <property>`: stdin lines `id<TAB>case<TAB>obs`,
-stdout lines `id<TAB>model-observation<TAB>oracle-verdict` (`ok` or a reason).
+stdout lines `id<TAB>model-observation<TAB>oracle-verdict<TAB>same|differs`.
 -/
 open Driver
 
-def dispatch (prop : String) (c obs : String) : String × String :=
+/-- (model observation, oracle verdict on the implementation's observation,
+does the implementation agree with the model under the property's observation relation) -/
+def dispatch (prop : String) (c obs : String) : String × String × Bool :=
   match prop with
-  | "C11" => let m := C11.run c; (m, if m == obs then "ok" else "differs-from-plain-rows-model")
-  | _ => ("unknown-property", "unknown-property")
+  | "C11" => let m := C11.run c; (m, if m == obs then "ok" else "differs-from-plain-rows-model", m == obs)
+  | "C16" => C16.runDiff c obs
+  | "C16inv" => C16.runInv c obs
+  | _ => ("unknown-property", "unknown-property", false)
 
 partial def loop (prop : String) (h : IO.FS.Stream) (out : IO.FS.Stream) : IO Unit := do
   let line ← h.getLine
@@ -16,12 +21,12 @@ partial def loop (prop : String) (h : IO.FS.Stream) (out : IO.FS.Stream) : IO Un
   let line := (line.dropEndWhile (· == '\n')).toString
   match splitOn1 line '\t' with
   | [id, c, obs] =>
-    let (m, o) := dispatch prop c obs
-    out.putStrLn s!"{id}\t{m}\t{o}"
+    let (m, o, t) := dispatch prop c obs
+    out.putStrLn s!"{id}\t{m}\t{o}\t{if t then "same" else "differs"}"
   | [id, c] =>
-    let (m, o) := dispatch prop c ""
-    out.putStrLn s!"{id}\t{m}\t{o}"
-  | _ => out.putStrLn s!"?\tbad-line\tbad-line"
+    let (m, o, t) := dispatch prop c ""
+    out.putStrLn s!"{id}\t{m}\t{o}\t{if t then "same" else "differs"}"
+  | _ => out.putStrLn s!"?\tbad-line\tbad-line\tdiffers"
   loop prop h out
 
 def main (args : List String) : IO Unit := do
